@@ -10,28 +10,44 @@ def main():
     mode, inp, out, tmpdir, efd, cfd, gated = sys.argv[1], sys.argv[2], sys.argv[3], sys.argv[4], int(sys.argv[5]), int(sys.argv[6]), sys.argv[7] == "1"
     tmpdir = os.path.realpath(tmpdir)
 
-    def emit(ev, name):
-        os.write(efd, (json.dumps({"ev": ev, "name": name}) + "\n").encode())
+    def emit(ev, name, rel=None):
+        os.write(efd, (json.dumps({"ev": ev, "name": name, "path": rel or name}) + "\n").encode())
         if gated and ev != "done":
             os.read(cfd, 1)
 
-    def inside(path):
-        return isinstance(path, str) and os.path.dirname(os.path.realpath(path)) == tmpdir
+    def entry(path):
+        """(top-level entry of the shared directory, path relative to it) for a path at any depth below the directory, else None.
+        The unit of the model is the directory ENTRY: a private sub-directory of the importer is one entry, the files in it are its content."""
+        if isinstance(path, bytes):
+            try:
+                path = os.fsdecode(path)
+            except Exception:  # noqa
+                return None
+        if not isinstance(path, str):
+            return None
+        rp = os.path.realpath(path)
+        if not rp.startswith(tmpdir + os.sep):
+            return None
+        rel = rp[len(tmpdir) + 1:]
+        return rel.split(os.sep)[0], rel
 
     def hook(event, args):
-        if event == "tempfile.mkstemp":
-            if inside(args[0]):
-                emit("mk", os.path.basename(args[0]))
+        if event in ("tempfile.mkstemp", "os.mkdir"):      # (tempfile.mkdtemp announces itself and then calls os.mkdir: one event)
+            e = entry(args[0])
+            if e and e[0] == e[1]:
+                emit("mk", e[0])
         elif event == "open":
             path, mode_, flags = args[0], args[1], args[2] or 0
-            if inside(path):
-                if flags & os.O_EXCL:
+            e = entry(path)
+            if e and not os.path.isdir(path):           # (rmtree opens the directory itself to scan it: not a read of intermediate data)
+                if flags & os.O_EXCL and e[0] == e[1]:
                     return          # the creation that belongs to mkstemp itself
                 writing = (mode_ is not None and any(c in str(mode_) for c in "wa+x")) or (flags & (os.O_WRONLY | os.O_RDWR))
-                emit("wr" if writing else "rd", os.path.basename(path))
-        elif event in ("os.remove", "os.unlink"):
-            if inside(args[0]):
-                emit("rm", os.path.basename(args[0]))
+                emit("wr" if writing else "rd", e[0], e[1])
+        elif event in ("os.remove", "os.unlink", "os.rmdir"):
+            e = entry(args[0])
+            if e and e[0] == e[1]:       # removals INSIDE a private sub-directory change its content, not the shared directory's entries
+                emit("rm", e[0])
 
     import warnings
     import io
